@@ -1,0 +1,46 @@
+// SPDX-FileCopyrightText: 2026 The Pion community <https://pion.ly>
+// SPDX-License-Identifier: MIT
+
+//go:build verif
+
+// Package verifhook provides named yield points and behaviour switches used
+// only by the verification harness. Without the verif build tag every function
+// here is an empty, inlinable stub.
+package verifhook
+
+import (
+	"sync"
+	"sync/atomic"
+)
+
+var (
+	handler atomic.Value // func(string)
+	skips   sync.Map     // string -> bool
+)
+
+// Install sets the function called at every Point. nil removes it.
+func Install(f func(name string)) {
+	if f == nil {
+		f = func(string) {}
+	}
+	handler.Store(f)
+}
+
+// Point is a named yield point.
+func Point(name string) {
+	if h, ok := handler.Load().(func(string)); ok && h != nil {
+		h(name)
+	}
+}
+
+// SetSkip turns a behaviour switch on or off.
+func SetSkip(name string, on bool) {
+	skips.Store(name, on)
+}
+
+// Skip reports whether the named behaviour switch is on.
+func Skip(name string) bool {
+	v, ok := skips.Load(name)
+
+	return ok && v.(bool) //nolint:forcetypeassert
+}
